@@ -23,7 +23,7 @@ ZIP_OPS = ["xml_truncate", "xml_unclose", "xml_numbers", "xml_entity", "xml_deep
            "member_swap", "cd_forge", "xml_attr_drop", "xml_dup_children", "nonutf8", "stored_overlong", "xml_huge_count"]
 TEXT_OPS = ["deep_braces", "deep_tags", "ctrl_numbers", "unbalanced", "long_line", "nul_bytes", "random_ctrl"]
 
-EXTREMES = [b"0", b"-1", b"1", b"255", b"65535", b"65536", b"2147483647", b"2147483648", b"4294967295", b"4294967296", b"9999999999999999999", b"-2147483649", b"1e309", b"NaN", b""]
+EXTREMES = [b"0", b"-1", b"-6", b"-20", b"1", b"255", b"65535", b"65536", b"2147483647", b"2147483648", b"4294967295", b"4294967296", b"9999999999999999999", b"-2147483649", b"1e309", b"NaN", b""]
 
 
 def byte_mutate(data: bytes, op: str, rng: random.Random, other: bytes = b"") -> bytes:
@@ -254,7 +254,11 @@ def text_mutate(d: bytes, op: str, rng: random.Random) -> bytes:
     if op == "nul_bytes":
         return d.replace(b" ", b"\x00", rng.choice([1, 10, 1000]))
     if op == "random_ctrl":
-        words = [b"\\page", b"\\trowd", b"\\row", b"\\cell", b"{\\pict ", b"{\\header ", b"{\\*\\x ", b"\\u-1?", b"\\u99999999?", b"\\'zz", b"{\\info", b"{\\field{\\*\\fldinst{HYPERLINK \"", b"\\bin5 ", b"{\\footnote "]
+        words = [b"\\page", b"\\trowd", b"\\row", b"\\cell", b"{\\pict ", b"{\\header ", b"{\\*\\x ", b"\\u-1?", b"\\u99999999?", b"\\'zz", b"{\\info", b"{\\field{\\*\\fldinst{HYPERLINK \"", b"\\bin5 ", b"{\\footnote ",
+                 # counts and positions that a format gives as signed numbers, with values no writer produces: negative byte counts
+                 # inside skipped groups, negative skip counts, negative cell edges
+                 b"\\bin-6 ", b"\\bin-20", b"{\\pict\\wmetafile8\\bin-9}", b"{\\object\\objemb{\\*\\objdata\\bin-7 }}", b"{\\*\\shppict{\\pict\\bin-12 }}",
+                 b"\\uc-1 ", b"\\uc-7\\u8364 ", b"\\cellx-1", b"\\trgaph-5", b"\\fs-24 ", b"\\li-720 "]
         b = d
         for _ in range(rng.choice([1, 5, 40])):
             i = rng.randrange(max(1, len(b)))
